@@ -62,7 +62,7 @@ def run_case(arg):
                 timeout_s=case.get("budget_s", 60),
                 per_path_timeout=case.get("per_path_s", 20),
                 stop_on_refute=case.get("stop_on_refute", False),
-                max_cex=case.get("max_cex", 6),
+                max_cex=case.get("max_cex", 12),
             ).as_dict()
         else:
             res = mod.run_special(case)
@@ -224,6 +224,8 @@ def main(argv=None):
         for cx in cexs:
             d = cx.get("detail")
             cand = (d.get("fp") if isinstance(d, dict) else None) or cx["message"]
+            if isinstance(d, dict) and d.get("fps"):
+                cand = "|".join(sorted(map(str, d["fps"])))
             if cand in cand_seen:  # one replay per (case, candidate fingerprint)
                 continue
             cand_seen.add(cand)
@@ -249,19 +251,23 @@ def main(argv=None):
                 f"({cx['message']}; args={cx['args']}): {out['info'][:500]}"
             )
             continue
-        fp = out["fp"] or f"{c['id']}:{cx['message']}"
-        if fp in seen or fp in open_fps:
+        fps = out["fp"] or f"{c['id']}:{cx['message']}"
+        fps = fps if isinstance(fps, list) else [fps]  # a path may report several distinct failures
+        keep = False
+        for fp in fps:
+            if fp in seen:
+                continue
+            seen.add(fp)
+            if fp in open_fps:
+                known_hit.setdefault(fp, path)
+            else:
+                keep = True
+                violations.append((fp, path, out["info"]))
+        if not keep:
             try:
                 os.remove(path)
             except OSError:
                 pass
-        if fp in seen:
-            continue
-        seen.add(fp)
-        if fp in open_fps:
-            known_hit.setdefault(fp, path)
-        else:
-            violations.append((fp, path, out["info"]))
 
     for fp, path in sorted(known_hit.items()):
         print(f"KNOWN-FINDING: property={prop} {open_fps[fp]['what']} [fingerprint {fp}]")
